@@ -61,7 +61,7 @@ def gen_spec(ch, asgi):
     s['stream'] = None
     if src & 8:
         kinds = ['agen', 'aiter_obj', 'aiter_none', 'afile', 'afile_noclose', 'afile_short'] if asgi else \
-            ['list', 'gen', 'iter_obj', 'file', 'file_noclose', 'file_short']
+            ['list', 'gen', 'iter_obj', 'iterable_obj', 'file', 'file_noclose', 'file_short']
         n = ch.draw(5, 'n_chunks')
         chunks = [('c%d' % i) * (1 + ch.draw(6, 'clen')) for i in range(n)]
         s['stream'] = {'kind': ch.choice(kinds, 'stream_kind'), 'chunks': chunks,
@@ -138,6 +138,23 @@ def make_stream(spec, asgi, fault, cnt):
             def close(self):
                 cnt.closes += 1
         return It()
+    if kind == 'iterable_obj':
+        # an iterable that is not its own iterator, with a close() of its own (PEP 3333: the server
+        # calls close() on the object the application returned)
+        class Itb(object):
+            def __iter__(self):
+                def it():
+                    while True:
+                        i = step()
+                        if i >= len(seq):
+                            return
+                        c = seq[i]
+                        yield b'' if c is None else c
+                return it()
+
+            def close(self):
+                cnt.closes += 1
+        return Itb()
     if kind in ('file', 'file_noclose', 'file_short'):
         buf = io.BytesIO(b''.join(c for c in seq if c))
 
@@ -286,7 +303,7 @@ def run(ctx):
         for i in range(n_chunks + 1):
             if ctx.opportunity('stream_empty_chunk'):
                 fault = ('empty', i)
-            if asgi or spec['stream']['kind'] in ('gen', 'iter_obj'):
+            if asgi or spec['stream']['kind'] in ('gen', 'iter_obj', 'iterable_obj'):
                 if ctx.opportunity('stream_none_chunk') and asgi:
                     fault = ('none', i)
         if not asgi:
@@ -643,7 +660,7 @@ def run(ctx):
     if ck != ['ck%d' % i for i in range(spec['cookies'])]:
         ctx.violate('resp.headers', 'Set-Cookie names %r' % (ck,), what='cookies', **sig)
     # close count on the stream object
-    if spec['stream'] is not None and spec['stream']['kind'] in ('gen', 'iter_obj', 'file', 'file_short',
+    if spec['stream'] is not None and spec['stream']['kind'] in ('gen', 'iter_obj', 'iterable_obj', 'file', 'file_short',
                                                                  'aiter_obj', 'aiter_none', 'afile',
                                                                  'afile_short'):
         if cnt.calls > 0 and cnt.closes != 1:
